@@ -25,6 +25,7 @@ RULE = (
     'op.T(op(x)) == x and op(op.T(y)) == y exactly, dense(op) is a permutation matrix whose transpose is dense(op.T), '
     'op.reduce() is the identity iff every leaf shape is unchanged, inverse pairs reduce to the identity by value. '
     'non-trivial = mixed-sign axes, or >= 2 leaves of different rank, or a -1 inference.'
+    ' Also: the would-be inverse move-axis with rotated source/destination pairing must not be cancelled; pytrees of 8-12 leaves of one shape.'
 )
 ASSUMPTIONS = [
     'no zero-sized dimensions; out-of-range ravel axes and repeated move axes are not generated (furax accepts them silently; the property does not forbid it)',
